@@ -8,10 +8,19 @@ CONSTANTS
   TraceFile = "trace.ndjson"
   Fuel = 400
   DecSep = 46
+  Plan = %s
 INVARIANTS Report
 POSTCONDITION Accepted
 CHECK_DEADLOCK FALSE
 """
+
+
+def parse_unspecat(out):
+    res = {}
+    for m in re.finditer(r'<<\s*"@@unspecat@@",\s*(\d+),\s*"(\w+)",\s*<<(.*?)>>\s*>>', out, re.S):
+        cps = [int(x) for x in re.findall(r"-?\d+", m.group(3))]
+        res[int(m.group(1))] = "".join(chr(c) for c in cps)
+    return res
 
 
 def parse_exp(out):
@@ -23,19 +32,21 @@ def parse_exp(out):
     return res
 
 
-def validate(records, procs=14, timeout=1800):
+def validate(records, procs=14, timeout=1800, plan=False):
     """records: prog/obs events. Returns (bad indices, {idx: (sig, expected text)}, stats, n_unspec)"""
     from concurrent.futures import ThreadPoolExecutor
     import tempfile, shutil, time
     chunks = vlib.split_chunks(records, procs, lambda r: r.get("e") == "prog")
     bad, exp, nun = [], {}, 0
+    unspecat = {}
+    sigs = {}
     stats = dict(generated=0, distinct=0, lines=0, wall=0.0, chunks=len(chunks))
 
     def one(ch):
         off, recs = ch
         wd = tempfile.mkdtemp(prefix="sem.", dir=vlib.scratch())
         vlib.write_ndjson(os.path.join(wd, "trace.ndjson"), recs)
-        r = vlib.tlc("DDPRunTrace", "t.cfg", ["sem", "common"], workdir=wd, workers=1, timeout=timeout, files={"t.cfg": T_CFG}, gcthreads=2, heap="3g")
+        r = vlib.tlc("DDPRunTrace", "t.cfg", ["sem", "common"], workdir=wd, workers=1, timeout=timeout, files={"t.cfg": T_CFG % ("TRUE" if plan else "FALSE")}, gcthreads=2, heap="3g")
         return off, len(recs), r
     t0 = time.time()
     with ThreadPoolExecutor(max_workers=procs) as ex:
@@ -47,9 +58,15 @@ def validate(records, procs=14, timeout=1800):
             nun += vlib.ints_of(marks["unspec"][-1])[0]
             for ln, v in parse_exp(r.out).items():
                 exp[off + ln - 1] = v
+            for ln, v in parse_unspecat(r.out).items():
+                unspecat[off + ln - 1] = v
+            for m in re.finditer(r'<<\s*"@@sig@@",\s*(\d+),\s*"(\w+)"\s*>>', r.out):
+                sigs[off + int(m.group(1)) - 1] = m.group(2)
             stats["generated"] += r.generated; stats["distinct"] += r.distinct; stats["lines"] += n
             shutil.rmtree(r.workdir, ignore_errors=True)
     stats["wall"] = time.time() - t0
+    validate.unspecat = unspecat
+    validate.sigs = sigs
     return sorted(bad), exp, stats, nun
 
 
@@ -72,3 +89,103 @@ def run_programs(progs, opts=(1,), runner=None, ledger=False):
             else:
                 recs.append(ddp.obs_event(rr, "O%d" % o))
     return recs, starts, fails, srcs, results
+
+
+def plan_cases(ck, cases, funcs=(), nearly=(), label="plan"):
+    """TLC-only pass: classify every case on its own (ok / rterr / unspec) before anything is compiled."""
+    import semgen
+    recs = []
+    for i, c in enumerate(cases):
+        p = semgen.batch_program([c], "plan%d" % i, funcs=funcs, nearly_stmts=nearly)
+        recs.append(dict(e="prog", id=p["id"], p=dict(structs=p["structs"], funcs=p["funcs"], main=p["main"])))
+    bad, exp, st, nun = validate(recs, plan=True)
+    ck.cov["states"] += st["distinct"]; ck.cov["transitions"] += st["generated"]
+    ck.cov["tlc_runs"].append(dict(name="DDPRunTrace %s" % label, lines=st["lines"], wall_s=round(st["wall"], 1), chunks=st["chunks"]))
+    sigs = validate.sigs
+    if len(sigs) != len(cases):
+        raise Infra("planning pass classified %d of %d cases" % (len(sigs), len(cases)))
+    return [sigs[i] for i in range(len(cases))]
+
+
+def judge_cases(ck, cases, opts=(1,), per=40, funcs=(), nearly=(), prefix="C01", runner=None, label="cases", ledger=False, asan=False):
+    """Batches cases into programs, runs them under every opt level, validates with DDPRunTrace and registers failures
+    on the Check object.  Batches that fail to build are bisected down to single cases (those are C02's subject and are
+    returned); a batch that reaches an unspecified corner is cut there and the remaining cases are re-run, so that
+    every specified case is compared.
+    Returns dict(n_cases, n_progs, compile_failed=[(key, stage, msg, src)], unspec_cases=[keys], records, meta)"""
+    import semgen, re as _re
+    runner = runner or ddp.Runner()
+    sigs = plan_cases(ck, cases, funcs=funcs, nearly=nearly, label=label + " plan")
+    okc = [c for c, s in zip(cases, sigs) if s == "ok"]
+    errc = [c for c, s in zip(cases, sigs) if s == "rterr"]
+    compile_failed, unspec_cases = [], [c.key for c, s in zip(cases, sigs) if s == "unspec"]
+    pending = [(okc[i:i + per], "%s-%s-%d" % (prefix, label, i // per)) for i in range(0, len(okc), per)]
+    pending += [([c], "%s-%s-e%d" % (prefix, label, i)) for i, c in enumerate(errc)]
+    all_recs, all_meta = [], []      # meta: (record start, batch cases, src, results)
+    nprogs = 0
+    for rnd in range(12):
+        if not pending:
+            break
+        progs = [semgen.batch_program(b, pid, funcs=funcs, nearly_stmts=nearly) for b, pid in pending]
+        recs, starts, fails, srcs, results = run_programs(progs, opts=opts, runner=runner, ledger=ledger)
+        nprogs += len(progs)
+        failed_idx = {i for i, f, s in fails}
+        nxt = []
+        for i, f, s in fails:
+            b, pid = pending[i]
+            if len(b) == 1:
+                stage, msg = list(f.values())[0]
+                compile_failed.append((b[0].key, stage, msg, s))
+            else:
+                h = len(b) // 2
+                nxt += [(b[:h], pid + "a"), (b[h:], pid + "b")]
+        base = len(all_recs)
+        rnd_recs, rnd_meta = [], []
+        for (start, i) in starts:
+            if i in failed_idx:
+                continue
+            end = min([s for s, _ in starts if s > start] + [len(recs)])
+            rnd_meta.append((len(rnd_recs), pending[i][0], srcs[i], results[i], pending[i][1]))
+            rnd_recs += recs[start:end]
+        if rnd_recs:
+            bad, exp, st, nun = validate(rnd_recs)
+            ck.cov["states"] += st["distinct"]; ck.cov["transitions"] += st["generated"]
+            ck.cov["tlc_runs"].append(dict(name="DDPRunTrace %s round %d" % (label, rnd), lines=st["lines"], wall_s=round(st["wall"], 1), chunks=st["chunks"]))
+            ck.cov["traces_validated_against_impl"] += sum(1 for r in rnd_recs if r["e"] == "obs")
+            mstarts = [m[0] for m in rnd_meta]
+            for i, text in validate.unspecat.items():
+                j = bisect.bisect_right(mstarts, i) - 1
+                _, bcases, src, res, pid = rnd_meta[j]
+                ms = [int(x) for x in _re.findall(r"#(\d+):", text)]
+                k = ms[-1] if ms else 0
+                unspec_cases.append(bcases[k].key)
+                if k + 1 < len(bcases):
+                    nxt.append((bcases[k + 1:], pid + "u"))
+            for i in bad:
+                j = bisect.bisect_right(mstarts, i) - 1
+                _, bcases, src, res, pid = rnd_meta[j]
+                ev = rnd_recs[i]
+                sig, etext = exp.get(i, ("?", ""))
+                otext = "".join(chr(c) for c in ev["out"])
+                ci = semgen.first_diff_case(etext, otext)
+                if ci is None or ci >= len(bcases):
+                    ci = len(bcases) - 1     # only the verdict (exit status / Laufzeitfehler) differs: the last case
+                key = "%s:%s:%s" % (prefix, bcases[ci].key, ev["cfg"])
+                ck.fail(key, "compiled program disagrees with DDPSem at case %s (%s): expected %s %r..., observed rterr=%s code=%s %r..." % (
+                    bcases[ci].key, ev["cfg"], sig, _around(etext, ci), ev["rterr"], ev["code"], _around(otext, ci)),
+                    dict(case=bcases[ci].key, cfg=ev["cfg"], expected=dict(sig=sig, out=etext), observed=dict(out=otext, rterr=ev["rterr"], code=ev["code"]), source=src))
+                # the cases after the failing one were not compared: re-run them
+                if ci + 1 < len(bcases) and all(n[1] != pid + "f" for n in nxt):
+                    nxt.append((bcases[ci + 1:], pid + "f"))
+            for m in rnd_meta:
+                all_meta.append((len(all_recs) + m[0],) + m[1:4])
+            all_recs += rnd_recs
+        pending = nxt
+    return dict(n_cases=len(cases), n_progs=nprogs, compile_failed=compile_failed, unspec_cases=unspec_cases, records=all_recs, meta=all_meta)
+
+
+def _around(text, ci):
+    if ci is None:
+        return text[:120]
+    m = text.find("#%d:" % ci)
+    return text[m:m + 100] if m >= 0 else text[:120]
